@@ -46,6 +46,13 @@ def stepLine (st : St) (line : String) : St × List String :=
   | ["dispatch", cls, args] =>
       let as := if args == "-" then [] else (args.splitOn ",").filterMap String.toNat?
       let (t, o) := step st.table (.dispatch cls as); ({ st with table := t }, [showOut o])
+  | ["dispatch", cls, args, exc] =>
+      let as := if args == "-" then [] else (args.splitOn ",").filterMap String.toNat?
+      let beh : Handler → Beh := fun _ => if exc == "-" then .returns else .raises exc
+      (st, [match dispatchWith st.table cls as beh with
+        | .returned h a => showOut (.called h a)
+        | .handlerRaised h a e => showOut (.called h a) ++ " raised:" ++ e
+        | .dispatchError => showOut (.err .dispatchError)])
   | ["keys"] =>
       let ks := (st.table.map (·.1)).foldr insertSorted []
       (st, ["keys " ++ (if ks.isEmpty then "-" else ",".intercalate ks)])
